@@ -18,6 +18,7 @@ import pickle
 from .. import fba, gprtree, seams
 from ..core import RunResult, Streams, Violation, digest
 from ..refmodel import Ref, reverse_id
+from .. import quarantine as Q
 from .. import snapshot as S
 
 SHRINK_LISTS = ("ops",)
@@ -409,6 +410,11 @@ class Hist:
                 self.stats[f"unexpected_raise:{kind}:{type(raised).__name__}"] += 1
             if kind in ("exit", "exit_exc") and "ctx_restore" in self.oracles:
                 raise Violation("ctx_exit_raises", {"exception": repr(raised)[:300]}, culprit=op)
+            if status == "raises":
+                # arguments the call is documented to refuse: refusing must not change anything
+                a.ref = pre
+                self.stats["probe:documented_refusal_compared"] += 1
+                self._judge_content(a, snap, f"after {kind} refused its arguments ({type(raised).__name__})", op)
             a.ref = self._resync(a, pre, op)
             self.stats["judged_I"] += 1
         else:
@@ -566,6 +572,10 @@ class Hist:
         # known finding KF-03: undo entries are bound to the objects of the solver that was current when they were recorded
         if kind == "solver" and depth_now(a) > 0 and "solver_switch_in_context" in self.quarantine:
             self.stats["quarantined:solver_switch_in_context"] += 1
+            raise Skip("quarantined")
+        # known finding KF-04: identifiers whose reverse-variable name exceeds the solver's name limit
+        if "id_over_solver_name_limit" in self.quarantine and Q.has_long_id(op):
+            self.stats["quarantined:id_over_solver_name_limit"] += 1
             raise Skip("quarantined")
         # rename_genes: "undefined if a value matches a different key" (comment in the code)
         if kind == "rename_genes":
@@ -909,7 +919,10 @@ class Hist:
         from cobra.manipulation import knock_out_model_genes
 
         how = op.get("as", "id")
-        items = [self.gene(a, g) if (how == "obj" and isinstance(g, str)) else g for g in op["genes"]]
+        from cobra import Gene
+
+        items = [(self.gene(a, g) if a.model.genes.has_id(g) else Gene(g)) if (how == "obj" and isinstance(g, str)) else g
+                 for g in op["genes"]]
         return knock_out_model_genes(a.model, items)
 
     def do_remove_genes(self, a, op, env):
@@ -1457,6 +1470,8 @@ def make_swarm(rng, prop, run_cfg):
     return sw
 
 
+# the forward name fits GLPK's 255 characters, the reverse name (id + "_reverse_" + 5 hex digits) does not
+LONG_ID = "L" * 245
 AWK_SUFFIX = [".1", "-x", ":y", "/z", "[c]", "(e)", "=q", "'p", "__x", "_DASH_", ".", "-"]
 AWK_GENES = ["g.1", "2g", "g-3", "g:4", "g5.x-y", "gene/6"]
 
@@ -1512,6 +1527,8 @@ def gen_op(rng, H, sw):
 
     def new_met():
         i = _fresh("N", ref.mets, rng)
+        if inv and rng.random() < 0.3:
+            i = rng.choice(["bad id", "tab\tid"])
         return {"t": "new", "id": i, "name": rng.choice(["", "new met"]), "formula": rng.choice([None, "H2O"]),
                 "charge": rng.choice([None, 0, 1]), "compartment": rng.choice(["c", "e", None])}
 
@@ -1583,7 +1600,7 @@ def gen_op(rng, H, sw):
             op.update(tree=None, rule=rng.choice(["g1 and", "(g1", "g1 or or g2"]), malformed=True)
     elif k == "rename_rxn":
         nf = _awkward if sw.get("awkward") and rng.random() < 0.7 else _fresh
-        op.update(r=rid(), new=(rng.choice([rid(), "bad id"]) if inv else nf("Q", ref.rxns, rng)))
+        op.update(r=rid(), new=(rng.choice([rid(), "bad id", LONG_ID]) if inv else nf("Q", ref.rxns, rng)))
     elif k == "rename_met":
         nf = _awkward if sw.get("awkward") and rng.random() < 0.7 else _fresh
         op.update(m=mid(), new=(rng.choice([mid(), "bad id"]) if inv else nf("Z", ref.mets, rng)))
@@ -1660,6 +1677,10 @@ def gen_op(rng, H, sw):
             specs = specs[:1]
         if inv and rng.random() < 0.5:
             specs[-1]["id"] = "bad rxn"  # an id the solver interface rejects (whitespace)
+        elif inv and rng.random() < 0.5:
+            specs[-1]["lb"], specs[-1]["ub"] = 5, 1  # bounds no setter would accept
+        elif inv and rng.random() < 0.5:
+            specs[-1]["id"] = LONG_ID
         op["rxns"] = specs
     elif k == "remove_reactions":
         rs = sorted({rid() for _ in range(rng.randint(1, 2))})
@@ -1715,6 +1736,9 @@ def gen_op(rng, H, sw):
         if how == "idx":
             order = [g.id for g in a.model.genes]
             gs = [order.index(g) for g in gs if g in order] or [0]
+        if inv:
+            # an entry that cannot be resolved, after entries that can
+            gs.append({"id": "g99", "obj": "g99", "idx": 99}[how] if rng.random() < 0.8 else None)
         op.update(genes=gs)
         op["as"] = how
     elif k == "remove_genes":
